@@ -3,6 +3,8 @@ package props
 import (
 	"fmt"
 	"math/rand"
+	"os"
+	"path/filepath"
 	"sort"
 	"strings"
 
@@ -100,6 +102,24 @@ func metaCheck(env *core.Env, cc core.Case) core.Verdict {
 		return core.Incon("cannot write tree: %v", err)
 	}
 	v := core.Verdict{Status: core.Held, Features: append([]string{"kind:" + c.Kind, "lane:" + p.Lane}, p.Features...), Counts: map[string]int{}}
+	// where the files lie is not an input: the checkout may be addressed through a symbolic link, and the include
+	// directory may be a link to a directory kept outside the checkout
+	switch (len(p.Main) + len(p.Files.Include)) % 5 {
+	case 1:
+		link := filepath.Join(filepath.Dir(root), "link-to-the-checkout")
+		if err := os.Symlink("crs", link); err == nil {
+			root = link
+			v.Features = append(v.Features, "root-through-link")
+		}
+	case 2:
+		kept := filepath.Join(filepath.Dir(root), "shared-include")
+		if err := os.Rename(filepath.Join(root, "regex-assembly", "include"), kept); err == nil {
+			if err := os.Symlink("../../shared-include", filepath.Join(root, "regex-assembly", "include")); err != nil {
+				return core.Incon("cannot link the include directory: %v", err)
+			}
+			v.Features = append(v.Features, "include-directory-is-a-link")
+		}
+	}
 	switch c.Kind {
 	case "include-flags":
 		// an include file with a flags line must be rejected, not merged
@@ -633,6 +653,16 @@ func c06Gen(rng *rand.Rand) *metaCase {
 		main = append(main, "##!> include-except outersfx outersfxx")
 		feats["nested-file-repeats-a-line-of-the-outer-file"] = true
 	}
+	// an exclude file that is itself built by an include-except directive: the inner directive finishes before the
+	// outer one goes on
+	if core.Chance(rng, 1, 5) {
+		p.Files.Include["nestwords"] = "alpha\nbravo\ncharlie\ndelta\necho\n"
+		p.Files.Include["nestg"] = "bravo\ndelta\nzulu\n"
+		p.Files.Exclude["nesty"] = core.Pick(rng, "zulu\n", "delta\n", "notlisted\n")
+		p.Files.Exclude["nestfps"] = core.Pick(rng, "##!> include-except nestg nesty\n", "echo\n##!> include-except nestg nesty\n", "##!> include-except nestg nesty -- a A\nalpha\n")
+		main = append(main, "##!> include-except nestwords nestfps"+core.Pick(rng, "", " -- o 0"))
+		feats["exclude-file-built-by-include-except"] = true
+	}
 	// an include file with its own prefix/suffix (so its text carries directive lines) and pairs whose keys end those lines
 	if core.Chance(rng, 1, 4) {
 		p.Files.Include["withaffix"] = "##!^ " + core.Pick(rng, `\b`, "pre") + "\n##!$ " + core.Pick(rng, `\b`, "post") + "\nalphax\nbetae\ngamma>\ndelta<\n"
@@ -780,6 +810,31 @@ func c07Gen(rng *rand.Rand) *metaCase {
 		}
 		p.Files.Include["incd"] = inc
 		body = append(body, "##!> include incd")
+	}
+	if core.Chance(rng, 1, 4) {
+		// two include files that define the same name differently (and one name that only the first defines):
+		// each file reads its own definitions, whatever was parsed before it
+		feats["sibling-includes-define-the-same-name"] = true
+		p.Files.Include["sepdash"] = "##!> define sep [\\-_]\n##!> define onlydash DASH\nfoo{{sep}}bar\n"
+		p.Files.Include["sepblank"] = "##!> define sep \\s+\nbaz{{sep}}qux\nx{{onlydash}}y\n"
+		body = append(body, core.Pick(rng, "##!> include sepdash", "##!> include sepblank"), core.Pick(rng, "##!> include sepblank", "##!> include sepdash", "##!> include-except sepblank sepnone"))
+		p.Files.Exclude["sepnone"] = "notlisted\n"
+	}
+	if nd > 0 && core.Chance(rng, 1, 4) {
+		// an include-except list that uses a name of the including file, an exclude file that spells the expanded
+		// entry, a pair that ends the expanded value: entries are compared and rewritten as written, wherever the
+		// definition line stands
+		k := rng.Intn(nd)
+		if !strings.Contains(vals[k], "{{") && len(vals[k]) > 0 {
+			feats["include-except-entry-uses-outer-name"] = true
+			p.Files.Include["outerref"] = "cat{{" + names[k] + "}}\ndog\nbird\n"
+			p.Files.Exclude["outerrefx"] = "cat" + vals[k] + "\n"
+			last := vals[k][len(vals[k])-1:]
+			if strings.ContainsAny(last, " \t\"") {
+				last = "zz"
+			}
+			body = append(body, core.Pick(rng, "##!> include-except outerref outerrefx", "##!> include-except outerref outerrefx -- "+last+" ZED", "##!> include outerref -- "+last+" ZED"))
+		}
 	}
 	// place the definition lines anywhere
 	ls := body
